@@ -25,7 +25,7 @@ MODES = (None, "2-point", "3-point", "cs")
 
 def floors(tier):
     return {"fd_runs": 600, "stencil_points_checked": 20000, "value_comparisons": 250, "runs_active_bound_at_optimum": 250,
-            "mode:None": 100, "mode:2-point": 100, "mode:3-point": 100, "mode:cs": 40, "degenerate_side_runs": 40, "settings_leak_checks": 60, "fd_restarts": 200, "problems_with_gradient_scaler": 30, "problems_whose_objective_returns_a_reused_array": 25, "__nontrivial__": 200}
+            "mode:None": 100, "mode:2-point": 100, "mode:3-point": 100, "mode:cs": 40, "degenerate_side_runs": 40, "settings_leak_checks": 60, "fd_restarts": 200, "problems_with_gradient_scaler": 30, "problems_whose_objective_returns_a_reused_array": 25, "problems_with_nested_finite_difference_run": 20, "__nontrivial__": 200}
 
 
 def cases(tier, seed):
@@ -38,7 +38,7 @@ def cases(tier, seed):
         yield {"problem": ps, "maxcor": int(rng.integers(1, 9)), "eps": float(gen.pick(rng, [1e-8, 1e-6])),
                "rel": gen.pick(rng, [None, None, 1e-7]), "maxls": int(gen.pick(rng, [5, 20])),
                "scaler": float(np.exp(rng.uniform(np.log(1e-2), np.log(1e2)))) if i % 4 == 1 else None, "split": int(rng.integers(1, 6)),
-               "value_buffer": bool(i % 5 == 2)}
+               "value_buffer": bool(i % 5 == 2), "nested": bool(i % 6 == 3)}
 
 
 def run(spec):
@@ -56,13 +56,25 @@ def run(spec):
         # the objective returns its value in one reused one-element array (the differencing must not keep a view of it)
         base["reuse_value_buffer"] = True
         out.count("problems_whose_objective_returns_a_reused_array")
+    hooks = {}
+    if spec.get("nested"):
+        # another finite-difference optimisation (other box, other scheme and steps) runs nested inside the objective now and then
+        Q = gen.make_problem({"family": "qp", "n": P.n, "seed": int(P.spec["seed"]) + 11, "cond": 10.0, "box": "none", "start": "interior"})
+        qcfg = dict(jac="3-point", maxcor=3, maxiter=2, maxfun=300, eps=1e-4, finite_diff_rel_step=1e-3)
+
+        def on_f(i, x):
+            if i in (1, 7, 40):
+                probes.run_min(Q, qcfg)
+
+        hooks["on_f"] = on_f
+        out.count("problems_with_nested_finite_difference_run")
     exact = probes.run_min(P, dict(base, jac="callable"))
     keys = set()
     degenerate = bool(np.any(P.lb == P.ub))
     for mode in MODES:
         if mode == "cs" and not e2e.cs_capable(P):
             continue
-        tr = probes.run_min(P, dict(base, jac=mode))
+        tr = probes.run_min(P, dict(base, jac=mode), hooks=hooks)
         tags = dict(family=fam, mode=str(mode))
         name = f"{fam} n={P.n} box={P.spec['box']} start={P.spec['start']} jac={mode}"
         out.count("fd_runs")
